@@ -8,6 +8,7 @@ import (
 	"encoding/json"
 	"errors"
 	"fmt"
+	ebustate "github.com/jilio/ebu/state"
 	"math/rand/v2"
 	"runtime"
 	"sort"
@@ -16,6 +17,7 @@ import (
 	"sync/atomic"
 	"testing"
 	"time"
+	shadowstate "verif/harness/internal/shadow/state"
 
 	"github.com/anishathalye/porcupine"
 	ebu "github.com/jilio/ebu"
@@ -273,6 +275,25 @@ func TestC16Sequences(t *testing.T) {
 		}
 	}
 	rec(nil)
+	// two different Go types that reflect prints alike ("state.ChangeMessage": an application's own
+	// package named state next to ebu's) but whose event names differ: a typed upcast between them is
+	// an ordinary acyclic registration and is applied to events persisted under the legacy name
+	if run.Shard == 0 {
+		store := ebu.NewMemoryStore()
+		bus := ebu.New(ebu.WithStore(store))
+		ebu.Publish(bus, shadowstate.ChangeMessage{Entity: "user", ID: "7", Body: `{"n":1}`})
+		// (the other order of first use as well: names must not be remembered by printed type)
+		_ = ebu.EventType(ebustate.ChangeMessage{})
+		err := ebu.RegisterUpcast(bus, func(l shadowstate.ChangeMessage) ebustate.ChangeMessage {
+			return ebustate.ChangeMessage{Type: l.Entity, Key: l.ID, Value: json.RawMessage(l.Body), Headers: ebustate.Headers{Operation: ebustate.OperationInsert}}
+		})
+		var types []string
+		bus.ReplayWithUpcast(context.Background(), ebu.OffsetOldest, func(e *ebu.StoredEvent) error { types = append(types, e.Type); return nil })
+		if err != nil || fmt.Sprint(types) != "[state.ChangeMessage]" {
+			run.Violation("upcast-registration:rejected-must-accept", fmt.Sprintf("RegisterUpcast from an application type named state.ChangeMessage (event name %q) to ebu's state.ChangeMessage (event name %q) returned %v; an upcasting replay of one legacy event handed out %v", ebu.EventType(shadowstate.ChangeMessage{}), ebu.EventType(ebustate.ChangeMessage{}), err, types), nil)
+		}
+		run.Case("same-printed-type-name-in-two-packages", true)
+	}
 	run.Count("exhaustive_sequences", int64(idx))
 	run.Exhaustive(true)
 	// very long version chains: the back edge must still be rejected, the forward shortcut accepted
@@ -636,6 +657,16 @@ func TestC16Termination(t *testing.T) {
 				}
 				run.Count("replay_subscriptions_over_upcast_registries", 1)
 			}
+			// whatever the upcasters returned, the registry is usable afterwards: further registrations
+			// and clears return (nothing the replays did may keep it locked)
+			cur = fmt.Sprintf("registry operations after the replays of: edges %v returning %v", es, assign)
+			dog.Case(cur)
+			if err := ebu.RegisterUpcastFunc(bus, "c16.after", "c16.after.v2", func(d json.RawMessage) (json.RawMessage, string, error) { return d, "c16.after.v2", nil }); err != nil {
+				run.Violation("upcast-registration:rejected-must-accept", fmt.Sprintf("after replays over registry %v (returns %v) a fresh acyclic registration was rejected: %v", es, assign, err), nil)
+			}
+			bus.ClearUpcastsForType(names[0])
+			bus.ClearUpcasts()
+			dog.Tick()
 			run.Case(cur, differs)
 			run.Max("max_upcaster_calls_for_one_event", int64(perEventMax))
 			if run.WantSample() && differs && len(es) >= 2 {
